@@ -555,7 +555,7 @@ theorem live_iceland_iban (R : Registry) (hR : NoMethodNames R (bytes "IS")) (s 
 theorem live_fits_facts {cc b : Str} {e : Country} (hl : Gen.table.lookup cc = some e)
     (hf : fits e b = true) : b.length = e.bbanLength ∧ allAlnum b = true := by
   have hW := C01.table_wf e (Table.lookup_mem hl).1
-  obtain ⟨l, hps, _, hexp⟩ := hW.spec
+  obtain ⟨l, _, hps, _, _, hexp⟩ := hW.spec
   have hf' := hf
   simp only [fits, hps] at hf'
   have hlen := fitsClasses_len hf'
